@@ -86,33 +86,41 @@ def resolveIds (allIds : List (Str × Str)) : List Str → List Str × List Fail
       | some pid => (pid :: ids, fs)
       | none => (ids, .unknownId id :: fs)
 
-/-- `compile_single_pragma` for the pragma text `l` found on line `n`. -/
-def compile (allIds : List (Str × Str)) (n : Nat) (ext : Bool) (l : Str) : Compiled :=
+/-- `line_after_prefix[after 'pyml ' and blanks : -3]` — the text between the title and the suffix. -/
+def commandData (ext : Bool) (l : Str) : Str :=
   let after := l.drop (if ext then 5 else 4)
   let i1 := (after.takeWhile isWs).length
-  let rest1 := after.drop (i1 + 5)
-  let rest2 := rest1.dropWhile isWs
-  -- command_data = line_after_prefix[idx2 : -3]
-  let cmdData := rest2.take (rest2.length - 3)
+  let rest2 := (after.drop (i1 + 5)).dropWhile isWs
+  rest2.take (rest2.length - 3)
+
+/-- `__handle_disable_next_line` -/
+def compileNextLine (allIds : List (Str × Str)) (n : Nat) (afterCmd : Str) : Compiled :=
+  let r := resolveIds allIds (splitOn ',' afterCmd)
+  ⟨if r.1.isEmpty then none else some (n + 1, r.1), none, r.2⟩
+
+/-- `__handle_disable_num_lines` (+ `_parse`) -/
+def compileNumLines (allIds : List (Str × Str)) (n : Nat) (afterCmd : Str) : Compiled :=
+  let a1 := afterCmd.dropWhile isWs
+  if a1.isEmpty then ⟨none, none, [.noCount]⟩
+  else
+    let num := a1.takeWhile (fun c => !isWs c)
+    let count : Int := (parseInt num).getD (-1)
+    if count < 1 then ⟨none, none, [.badCount num]⟩
+    else
+      let a2 := (a1.drop num.length).dropWhile isWs
+      if a2.isEmpty then ⟨none, none, [.noIds]⟩
+      else
+        let r := resolveIds allIds (splitOn ',' a2)
+        ⟨none, if r.1.isEmpty then none else some (n + 1, n + count.toNat, r.1), r.2⟩
+
+/-- `compile_single_pragma` for the pragma text `l` found on line `n`. -/
+def compile (allIds : List (Str × Str)) (n : Nat) (ext : Bool) (l : Str) : Compiled :=
+  let cmdData := commandData ext l
   let command := lower (cmdData.takeWhile (fun c => !isWs c))
   let afterCmd := cmdData.drop command.length
   if command.isEmpty then ⟨none, none, [.noCommand]⟩
-  else if command == "disable-next-line".toList then
-    let (ids, fs) := resolveIds allIds (splitOn ',' afterCmd)
-    ⟨if ids.isEmpty then none else some (n + 1, ids), none, fs⟩
-  else if command == "disable-num-lines".toList then
-    let a1 := afterCmd.dropWhile isWs
-    if a1.isEmpty then ⟨none, none, [.noCount]⟩
-    else
-      let num := a1.takeWhile (fun c => !isWs c)
-      let count : Int := (parseInt num).getD (-1)
-      if count < 1 then ⟨none, none, [.badCount num]⟩
-      else
-        let a2 := (a1.drop num.length).dropWhile isWs
-        if a2.isEmpty then ⟨none, none, [.noIds]⟩
-        else
-          let (ids, fs) := resolveIds allIds (splitOn ',' a2)
-          ⟨none, if ids.isEmpty then none else some (n + 1, n + count.toNat, ids), fs⟩
+  else if command == "disable-next-line".toList then compileNextLine allIds n afterCmd
+  else if command == "disable-num-lines".toList then compileNumLines allIds n afterCmd
   else ⟨none, none, [.unknownCommand command]⟩
 
 /-- All pragma lines of a document with their (1-based) line numbers. -/
